@@ -5,45 +5,45 @@ HERE = os.path.dirname(os.path.dirname(os.path.abspath(__file__)))
 PIP = "/venv/bin/pip install -q --no-index --find-links /opt/veriftools/wheels"
 CHECKS = {
  "C01": ("round-trip + fixed-point oracle against an independent GFA grammar/canonicaliser over generated documents (Hypothesis)",
-         "6-C01", "Generated valid GFA1/GFA2 documents (all record types, all 7 tag datatypes) x vlevel 0-3 x entry points; written records compared as a multiset of canonical values computed by an independent parser, plus literal write fixed point; custom records with tag-shaped positional fields, LN tags on GFA2 segments, near-collision names. Exploration: absence of violations on the cases generated, not a proof."),
+         "6-C01", "Generated valid GFA1/GFA2 documents (all record types, all 7 tag datatypes) x vlevel 0-3 x entry points; written records compared as a multiset of canonical values computed by an independent parser, plus literal write fixed point; custom records with tag-shaped positional fields, LN tags on GFA2 segments, near-collision names, names like None/null/nan, zero-length segments, comments holding form feed / vertical tab / FS-GS-RS. Exploration: absence of violations on the cases generated, not a proof."),
  "C02": ("model-based mutation histories (Hypothesis-drawn, simulated on a text-level reference model) with closure/symmetry/registry invariants evaluated after every step",
-         "6-C02", "Generated histories of add (text, Line object, clone of a Line object, original + clone)/rm/disconnect/rename/re-add over all record types; after every step structural invariants of the object graph (closure, reference/back-reference symmetry with multiplicities, no ghost, ownership, registry) and model-derived back-reference collections are checked. Exploration."),
+         "6-C02", "Generated histories of add (text, Line object, clone of a Line object, original + clone)/rm/disconnect/rename (also towards an identifier that is only mentioned so far)/re-add (E lines with mirrored intervals) over all record types; after every step structural invariants of the object graph (closure, reference/back-reference symmetry with multiplicities, no ghost, ownership, registry) and model-derived back-reference collections are checked. Exploration."),
  "C03": ("differential testing over permutations of generated documents (random, targeted and all n! orders of small documents) plus model oracle",
          "6-C03", "Each permutation of a generated valid document must give the same full observation as the generation order, leave no placeholder, and match the model's back-references; a quarter of the GFA1 documents are crowded with parallel links under paths that name their overlaps. Exploration; the all-orders part is exhaustive per document (<= 6 lines)."),
  "C05": ("model-based mutation histories: incremental mutation vs. fresh parse of the edited text (differential), exact cascade from a text-level model",
-         "6-C05", "After every step of a generated history the real lines must equal the text model (exact removal cascade, rename rewriting); at closed points the whole observation must equal that of a Gfa parsed afresh from the model text. Exploration."),
+         "6-C05", "After every step of a generated history the real lines must equal the text model (exact removal cascade, rename rewriting); at closed points the whole observation must equal that of a Gfa parsed afresh from the model text; parts wide-gfa1/wide-gfa2: reference lists of 66-90 entries. Exploration."),
  "C11": ("exhaustive enumeration of the E-line classification table and L/C/G orientation table + generated graphs against a specification-derived model",
-         "6-C11", "All 196 E-line cells x arrival order x self-edge and all L/C/G orientation pairs are enumerated completely (exhaustive: true for that part); generated graphs add multi-entry collections. Collections and derived queries are compared with a model written from the specification; every segment in an answer must be the segment object of the graph, and lists handed out by the Gfa belong to the caller."),
+         "6-C11", "All 196 E-line cells x arrival order x self-edge and all L/C/G orientation pairs are enumerated completely (exhaustive: true for that part); generated graphs add multi-entry collections. Collections and derived queries are compared with a model written from the specification; every segment in an answer must be the segment object of the graph, lists handed out by the Gfa belong to the caller, and the set of segments reachable from each segment (asked one after the other) follows from the dovetail collections."),
  "C16": ("generated graphs and model-based histories compared with an independent union-find / counting model",
          "6-C16", "connected_components, segment_connected_component and the n_* counts are compared with a union-find over the model's dovetails and with counts from the text, on generated documents and after every step of generated histories; remove_small_components(minlen) is compared with the model's edited text; chains of thousands of segments. Exploration."),
  "C04": ("exhaustive bounded enumeration of short strings per field datatype + single-edit mutations of valid values + semantically mutated documents, against an independent grammar (language equality)",
-         "6-C04", "For each tag datatype and positional slot every string up to a length bound over a reduced alphabet is enumerated (exhaustive: true for those parts) and gfapy's accept/refuse verdict (construction, validate, read, write, Gfa.validate) is compared with an independent recogniser; documents with one semantic mutation of known verdict cover the cross-field rules and rGFA, as documents and line by line; a share of the strings is first handled at level 0 in the same process."),
+         "6-C04", "For each tag datatype and positional slot every string up to a length bound over a reduced alphabet is enumerated (exhaustive: true for those parts) and gfapy's accept/refuse verdict (construction, validate, read, write, Gfa.validate) is compared with an independent recogniser; documents with one semantic mutation of known verdict cover the cross-field rules and rGFA, as documents and line by line; a share of the strings is first handled at level 0 in the same process; begin <= end is judged on F lines as on E lines."),
  "C07": ("random/structured text generation, k-point mutation of valid documents and of the repository's test data, API-string fuzzing with exception bucketing, and bin/gfapy-validate as a subprocess (Hypothesis; Atheris coverage-guided fuzzing in the thorough tier)",
-         "6-C07", "Arbitrary text as lines/documents/files and arbitrary strings through the public API at vlevel 0-3; any exception not derived from gfapy.Error is a leak, bucketed by class and innermost gfapy frame; watchdog for non-termination; bin/gfapy-validate on files (also files that are not valid UTF-8) must exit with 0 or 1 without a traceback and agree with the API. Exploration: absence of leaks on the generated inputs only."),
+         "6-C07", "Arbitrary text as lines/documents/files and arbitrary strings through the public API at vlevel 0-3; any exception not derived from gfapy.Error is a leak, bucketed by class and innermost gfapy frame; watchdog for non-termination; bin/gfapy-validate on files (also files that are not valid UTF-8) must exit with 0 or 1 without a traceback and agree with the API; part scaling: 18 kinds of repetitive fields, 23 instead of 11 elements before a flaw must not take thousands of times longer (CPU time); rGFA documents with one rule broken; digit lookalikes. Exploration: absence of leaks on the generated inputs only."),
  "C12": ("algebraic laws (involution, reference/query length exchange, symmetry, repeatability) and graph-level metamorphic checks over generated links, with a model-computed complement",
-         "6-C12", "Generated links (all orientation pairs, self-links, hairpins, CIGARs over MIDP=XH) are checked against the complement laws and a Gfa holding them against 'adding the complement adds nothing', 'a different edge adds one' and model-computed path direction flags in both arrival orders; several links (parallel ones included) and paths in one shuffled order; complement() of a connected link offered to another Gfa."),
+         "6-C12", "Generated links (all orientation pairs, self-links, hairpins, CIGARs over MIDP=XH) are checked against the complement laws and a Gfa holding them against 'adding the complement adds nothing', 'a different edge adds one' and model-computed path direction flags in both arrival orders; several links (parallel ones included) and paths in one shuffled order; complement() of a connected link offered to another Gfa; canonicize(); CIGAR lengths up to 10**25."),
  "C19": ("clone of every line of generated documents + identity scan for shared mutable objects + exhaustive in-place editing of every reachable mutable value on either side",
-         "6-C19", "Every line (stand-alone and connected, incl. merged header) is cloned; the clone must be detached, equal and textually identical; no mutable object may be reachable from both; every object with state of its own counts as mutable (lists, dicts, OrientedLine, FieldArray, CIGAR operations, LastPos); after editing every mutable value of one side the other side (line, Gfa, referenced lines) must be unchanged."),
+         "6-C19", "Every line (stand-alone and connected, incl. merged header) is cloned; the clone must be detached, equal and textually identical; no mutable object may be reachable from both; every object with state of its own counts as mutable (lists, dicts, OrientedLine, FieldArray, CIGAR operations, LastPos); after editing every mutable value of one side the other side (line, Gfa, referenced lines) must be unchanged; a clone taken after a referenced segment was renamed writes the new identifier."),
  "C20": ("typed value generation on and around every datatype boundary; set -> write -> independent grammar check -> re-parse round trip; invalid classes must be reported by validation",
          "6-C20", "Python values in and just outside each tag datatype's range are assigned (set/attribute, declared or default datatype, vlevel 0-3); valid ones must be written in valid syntax and read back equal with the same datatype (B with the smallest subtype), invalid ones must be reported by validate_field/validate and at write time for vlevel >= 2."),
  "C06": ("generated GFA1 graphs and model-derived GFA2 graphs converted both ways; oracle = independent interval/alignment arithmetic, vlevel-3 re-parse of the output, round trip",
-         "6-C06", "Conversions of generated graphs (asymmetric CIGARs, all orientations, containments at every offset, linear/circular/one-segment paths, both E role arrangements, records without counterpart) are compared record by record with a model of the coordinate arithmetic; outputs must parse at vlevel 3; there-and-back must be equivalent; bin/gfapy-convert as a subprocess is judged by the same oracle; O paths given by their edges only (two-cycles: a valid result or a refusal)."),
+         "6-C06", "Conversions of generated graphs (asymmetric CIGARs, all orientations, containments at every offset, linear/circular/one-segment paths, both E role arrangements, records without counterpart) are compared record by record with a model of the coordinate arithmetic; outputs must parse at vlevel 3; there-and-back must be equivalent; bin/gfapy-convert as a subprocess is judged by the same oracle; O paths given by their edges only (two-cycles: a valid result or a refusal), nested O groups, groups over containments (no counterpart), comments, whole-segment overlaps, the rGFA dialect, the GFA2 positions a link reports for itself."),
  "C08": ("model-based histories with injected calls built to fail; observation before vs after each refused call (differential on the same object)",
-         "6-C08", "About half of the steps of generated histories are calls constructed to be refused (collisions, version conflicts, malformed fields, header conflicts, contradictory group tags, read-only fields, unsupported VN on a Gfa of unknown version); whenever a call raises, the complete observation of the Gfa must equal the one taken before."),
+         "6-C08", "About half of the steps of generated histories are calls constructed to be refused (collisions, version conflicts, malformed fields, header conflicts, contradictory group tags, read-only fields, unsupported VN on a Gfa of unknown version, a line naming itself on a pending identifier, a malformed item of a group continuation at vlevel 0, None for a positional field, identifiers of thousands of digits); whenever a call raises, the complete observation of the Gfa must equal the one taken before."),
  "C09": ("model-based histories of adds/renames/removals with collision attempts; namespace and lookup invariants after every step",
-         "6-C09", "Histories over every identified record type with same-type and cross-type collisions (add and rename), integer-looking names and unused_name(); after each step the namespace, per-kind name lists, line()/segment() lookups and the written document are compared with the text model; collisions (also an ID given to a connected link, and a line that mentions its own identifier) must raise NotUniqueError and leave the state unchanged (documented merges excepted)."),
- "C10": ("random sequences of calls from an explicit catalogue of 75 read-only operations on generated Gfa states; deep fingerprint before/after each call and repeatability of results",
-         "6-C10", "After every call of a random sequence of read-only operations a deep fingerprint of the Gfa (texts, field values, ordered back-reference lists, name lists) must be unchanged and the repeated call must return an equal result."),
+         "6-C09", "Histories over every identified record type with same-type and cross-type collisions (add and rename), integer-looking names and unused_name(); after each step the namespace, per-kind name lists, line()/segment() lookups and the written document are compared with the text model; collisions (also an ID given to a connected link, and a line that mentions its own identifier, an awaited link with the ID of a pending segment) must raise NotUniqueError and leave the state unchanged (documented merges excepted); renames towards pending identifiers, identifiers handed out by a conversion, histories that start from groups only."),
+ "C10": ("random sequences of calls from an explicit catalogue of 76 read-only operations on generated Gfa states; deep fingerprint before/after each call and repeatability of results",
+         "6-C10", "After every call of a random sequence of read-only operations a deep fingerprint of the Gfa (texts, field values, ordered back-reference lists, name lists) must be unchanged and the repeated call must return an equal result; an argument the caller owns (a select() criterion) is made once, passed to both calls and must be left as it was; part purity-big: groups and paths of hundreds of items."),
  "C13": ("exhaustive enumeration of short sequences of line kinds x version parameter x vlevel against a version-inference table + generated mixed documents in random orders",
-         "6-C13", "All sequences of up to 3 (quick) / 4 (thorough) lines over 16 line kinds x version parameter x vlevel are enumerated (exhaustive: true for that part), incrementally and through Gfa(list); at vlevel 0, 1, 2, also with identical repeated lines; the inferred version / VersionError verdict must match the model table for every order and every queued line must appear exactly once."),
+         "6-C13", "All sequences of up to 3 (quick) / 4 (thorough) lines over 16 line kinds x version parameter x vlevel are enumerated (exhaustive: true for that part), incrementally and through Gfa(list); at vlevel 0, 1, 2, also with identical repeated lines; the inferred version / VersionError verdict must match the model table for every order and every queued line must appear exactly once; Line objects and their clones as deciding lines; a VN header other than 1.0/2.0 and documents without version-specific lines give the same outcome in every order and through every entry point (list, string, file, add_line)."),
  "C18": ("differential across validation levels on generated valid and mutated documents; assignment programs with grammar-judged values checked for when the error surfaces",
-         "6-C18", "The same document is loaded at vlevel 0-3 (same graph, same text, monotone acceptance); assignment programs with values the independent grammar accepts or rejects check that an invalid value raises at the assignment at level 3, at write time at level >= 2 and in validate_field at every level, and that valid values are never rejected; the same for header.add() programs and for programs that edit a line and its clones side by side."),
+         "6-C18", "The same document is loaded at vlevel 0-3 (same graph, same text, monotone acceptance); assignment programs with values the independent grammar accepts or rejects check that an invalid value raises at the assignment at level 3, at write time at level >= 2 and in validate_field at every level, and that valid values are never rejected; the same for header.add() programs and for programs that edit a line and its clones side by side; part wrong-type: positional fields given values of a Python type their datatype cannot hold."),
  "C14": ("planted-structure graph generation; chains, spelled sequences and re-attached links recomputed by an independent model; search over bijections for fresh names",
-         "6-C14", "Graphs with planted chains (all orientation patterns, cycles, branching, hairpins, parallel links, with and without sequences) are checked against chains recomputed from the text; after merging, the merged segments' sequences/LN, the outward links, bystanders, components, invariants and idempotence are compared with the model, also under the options merged_name / cut_counts / enable_tracking and through bin/gfapy-mergelinear."),
+         "6-C14", "Graphs with planted chains (all orientation patterns, cycles, branching, hairpins, parallel links, with and without sequences) are checked against chains recomputed from the text; after merging, the merged segments' sequences/LN, the outward links, bystanders, components, invariants and idempotence are compared with the model, also under the options merged_name / cut_counts / enable_tracking, through bin/gfapy-mergelinear, with the edges loaded before the segments, and with members named like merged names."),
  "C15": ("generated graphs x segment x factor x distribution policy x copy names; oracle derived from the statement (faithful copies, floor-divided counts, distribution as subset + coverage predicates)",
-         "6-C15", "multiply() is run over generated graphs and every factor/policy/name option; copies, counts, copied edges, link distribution (validity predicate: nothing invented, every neighbour kept, every copy served), factor 0/1/negative, unknown policies and bystanders are checked against expectations computed from the text; apply_copy_numbers() is checked by a validity predicate derived from the statement."),
+         "6-C15", "multiply() is run over generated graphs and every factor/policy/name option; copies, counts, copied edges, link distribution (validity predicate: nothing invented, every neighbour kept, every copy served), factor 0/1/negative, unknown policies and bystanders are checked against expectations computed from the text; apply_copy_numbers() is checked by a validity predicate derived from the statement; requested copy names that cannot be given must be refused without any change; twin containments."),
  "C17": ("construction-based generation (O group derived from a planted walk) with a brute-force enumeration of all walks consistent with an item list; three-way classification (equality / must-raise / validity predicate); multi-line and induced-set models",
-         "6-C17", "Ordered groups are derived from planted walks (elided edges/segments, nested and reversed groups) or mutated; the model enumerates every consistent alternating walk and demands equality (also where a nested path ends with an edge and the list goes on with the segment it leads to), an error, or membership; multi-line definitions and induced sets are compared with models computed from the text."),
+         "6-C17", "Ordered groups are derived from planted walks (elided edges/segments, nested and reversed groups) or mutated; the model enumerates every consistent alternating walk and demands equality (also where a nested path ends with an edge and the list goes on with the segment it leads to), an error, or membership; multi-line definitions and induced sets are compared with models computed from the text; twin unnamed edges (the ambiguity must be reported, both are induced)."),
 }
 NOT_APPLICABLE = {
 }
@@ -81,7 +81,7 @@ def main():
         "engines": [{"name": "vf", "path": "vf/", "serves_properties": sorted(CHECKS), "kind_free_text": "property-based testing (Hypothesis 6.168), exhaustive enumeration of bounded domains, model-based histories, Atheris fuzzing for C07 thorough"}],
         "checks": checks,
         "not_applicable": na,
-        "notes": "All checks: ./check <ID> [--tier quick|thorough] [--replay FILE]; VERIF_SEED honoured; exit 2 = harness error. Known findings / fixed defects: known_findings.json (D1-D108 fixed by fix: commits in /repo; one open finding, D109 (deep group nesting: RecursionError on a removal cascade), for which ./check C07 prints one KNOWN-FINDING line and exits 0). Seeded changes used for the sensitivity tests: seeded/ (152 kept, table in DESIGN.md section 7).",
+        "notes": "All checks: ./check <ID> [--tier quick|thorough] [--replay FILE]; VERIF_SEED honoured; exit 2 = harness error. Known findings / fixed defects: known_findings.json (D1-D128, all fixed by fix: commits in /repo; no open finding, no check prints a KNOWN-FINDING line). Seeded changes used for the sensitivity tests: seeded/ (227 kept after six rounds, table in DESIGN.md section 7).",
     }
     with open(os.path.join(HERE, "MANIFEST.json"), "w") as f:
         json.dump(m, f, indent=1)
